@@ -1,10 +1,14 @@
 //! More bounded stand-ins through the public API (each used only as a fallback when a unit cannot be posed, or
 //! as the `bounded` supplement of the thorough tier; never counted as proved):
 //!  * `exclude_roundtrip`  (C15): backup with exclusions E stores exactly the entries (below the root) that listing a
-//!                         FULL backup with the same E yields.
+//!                         FULL backup with the same E yields.  Round 6: a hand-written REFERENCE table (independent of
+//!                         the glob library) for `/dir/**`, `/dir`, `/dir/*`, `*.o`, `/a/b`, `cache`, ... on a fixed
+//!                         tree: the exact set of paths that backup-time, list-time and restore-time selection must
+//!                         keep ("omitted iff it or an ancestor matches"): `/dir/**` keeps `/dir` itself, `/dir` does not.
 //!  * `restore_sandbox`    (C16): symlinks owned by another user pointing at sentinels beside the destination
 //!                         (relative `..`, absolute, directory): restore must leave owner / mode / mtime / content
-//!                         of every sentinel untouched; a non-empty destination must be refused untouched.
+//!                         of every sentinel untouched; a non-empty destination must be refused untouched, also one
+//!                         that holds only dot-names (`.config`, `.cache/state`, `.config -> ../sentinel_file`).
 //!                         Stitched scenario: directory `a` (holding `a/x`) replaced by a symlink leading out of the
 //!                         destination (absolute, relative, `..`), second backup interrupted after the hunk holding
 //!                         `/a`: restoring the latest (incomplete) version must create nothing through the link
@@ -137,8 +141,82 @@ fn exclude_roundtrip() -> Result<Option<Value>, String> {
                     "the same entries", "exclusions select different entries at backup time and at restore time");
             }
         }
-        Ok(None)
+        exclude_reference_table(tmp.path()).await
     })
+}
+
+/// The "if and only if" clause of C15 against hand-written expectations (no glob library involved): for a fixed tree
+/// and each pattern set, the exact set of paths (below the root) that must remain.  An entry is omitted iff it or one
+/// of its ancestors matches; `X/**` matches everything below X but not X, `X/*` the children of X, a pattern without
+/// a leading slash matches at any depth, `*` and `?` do not match `/`.
+async fn exclude_reference_table(tmp: &Path) -> Result<Option<Value>, String> {
+    let src = tmp.join("ref_src");
+    write_tree(&src, &[("dir/x", 3), ("dir/sub/y", 3), ("dir/obj.o", 3), ("dirt/kept", 3), ("a/b/c", 3), ("a/bb", 3), ("a.o", 3), ("cache/z", 3), ("deep/cache/w", 3), ("deep/k.o", 3), ("plain", 3)])?;
+    std::fs::create_dir_all(src.join("dir/hollow")).map_err(|e| format!("setup failed at line {}: {e:?}", line!()))?;
+    symlink("dir", src.join("dirlink")).map_err(|e| format!("setup failed at line {}: {e:?}", line!()))?;
+    const ALL: &[&str] = &["/a", "/a.o", "/a/b", "/a/b/c", "/a/bb", "/cache", "/cache/z", "/deep", "/deep/cache", "/deep/cache/w", "/deep/k.o", "/dir", "/dir/hollow", "/dir/obj.o", "/dir/sub",
+        "/dir/sub/y", "/dir/x", "/dirlink", "/dirt", "/dirt/kept", "/plain"];
+    // (patterns, paths that are OMITTED) -- everything else of ALL remains
+    let table: Vec<(Vec<&str>, Vec<&str>)> = vec![
+        (vec!["/dir/**"], vec!["/dir/hollow", "/dir/obj.o", "/dir/sub", "/dir/sub/y", "/dir/x"]),
+        (vec!["/dir"], vec!["/dir", "/dir/hollow", "/dir/obj.o", "/dir/sub", "/dir/sub/y", "/dir/x"]),
+        (vec!["/dir/*"], vec!["/dir/hollow", "/dir/obj.o", "/dir/sub", "/dir/sub/y", "/dir/x"]),
+        (vec!["*.o"], vec!["/a.o", "/deep/k.o", "/dir/obj.o"]),
+        (vec!["/a/b"], vec!["/a/b", "/a/b/c"]),
+        (vec!["cache"], vec!["/cache", "/cache/z", "/deep/cache", "/deep/cache/w"]),
+        (vec!["cache/**"], vec!["/cache/z", "/deep/cache/w"]),
+        (vec!["dir/**"], vec!["/dir/hollow", "/dir/obj.o", "/dir/sub", "/dir/sub/y", "/dir/x"]),
+        (vec!["/deep/cache/**", "/a/**"], vec!["/deep/cache/w", "/a/b", "/a/b/c", "/a/bb"]),
+        (vec!["/dir/sub/**"], vec!["/dir/sub/y"]),
+        (vec!["/dir/hollow/**"], vec![]),
+        (vec!["/*/**"], vec!["/a/b", "/a/b/c", "/a/bb", "/cache/z", "/deep/cache", "/deep/cache/w", "/deep/k.o", "/dir/hollow", "/dir/obj.o", "/dir/sub", "/dir/sub/y", "/dir/x", "/dirt/kept"]),
+        (vec!["/di?"], vec!["/dir", "/dir/hollow", "/dir/obj.o", "/dir/sub", "/dir/sub/y", "/dir/x"]),
+        (vec!["/nothing/**"], vec![]),
+    ];
+    let full = Archive::create_path(&tmp.join("ref_full")).await.map_err(|e| format!("setup failed at line {}: {e:?}", line!()))?;
+    conserve::backup(&full, &src, &BackupOptions::default(), Arc::new(VoidMonitor)).await.map_err(|e| format!("setup failed at line {}: {e:?}", line!()))?;
+    let mut all_listed: Vec<String> = listing(&full, 0, Exclude::nothing()).await?.into_iter().filter(|p| p != "/").collect();
+    all_listed.sort();
+    if all_listed != ALL.iter().map(|s| s.to_string()).collect::<Vec<_>>() {
+        return Err(format!("setup failed: the reference tree lists as {all_listed:?}"));
+    }
+    for (ti, (pats, omitted)) in table.iter().enumerate() {
+        if let Some(bad) = omitted.iter().find(|o| !ALL.contains(o)) {
+            return Err(format!("setup failed: the reference table names {bad} which is not in the tree"));
+        }
+        let want: Vec<String> = ALL.iter().filter(|p| !omitted.contains(p)).map(|s| s.to_string()).collect();
+        let ex = || Exclude::from_strings(pats.clone()).map_err(|e| format!("bad patterns: {e:?}"));
+        let report = |phase: &str, got: &Vec<String>| {
+            let wrongly_omitted: Vec<&String> = want.iter().filter(|p| !got.contains(p)).collect();
+            let wrongly_kept: Vec<&String> = got.iter().filter(|p| !want.contains(p)).collect();
+            found("exclude_roundtrip", json!({"patterns": pats, "phase": phase, "tree": ALL}), format!("{phase}: omitted although neither the entry nor an ancestor matches: {wrongly_omitted:?}; kept although the entry or an ancestor matches: {wrongly_kept:?}"),
+                &format!("exactly {want:?}"), "an entry is not omitted if and only if it or one of its ancestors matches an exclusion pattern (reference table written by hand)")
+        };
+        // backup time
+        let part = Archive::create_path(&tmp.join(format!("ref_part{ti}"))).await.map_err(|e| format!("setup failed at line {}: {e:?}", line!()))?;
+        conserve::backup(&part, &src, &BackupOptions { exclude: ex()?, ..BackupOptions::default() }, Arc::new(VoidMonitor)).await.map_err(|e| format!("setup failed at line {}: {e:?}", line!()))?;
+        let mut stored: Vec<String> = listing(&part, 0, Exclude::nothing()).await?.into_iter().filter(|p| p != "/").collect();
+        stored.sort();
+        if stored != want {
+            return report("backup with the exclusions", &stored);
+        }
+        // list time
+        let mut listed: Vec<String> = listing(&full, 0, ex()?).await?.into_iter().filter(|p| p != "/").collect();
+        listed.sort();
+        if listed != want {
+            return report("listing the full backup with the exclusions", &listed);
+        }
+        // restore time
+        let dest = tmp.join("ref_dest");
+        let _ = std::fs::remove_dir_all(&dest);
+        conserve::restore(&full, &dest, RestoreOptions { exclude: ex()?, ..RestoreOptions::default() }, Arc::new(VoidMonitor)).await.map_err(|e| format!("setup failed at line {}: {e:?}", line!()))?;
+        let mut restored: Vec<String> = tree_snapshot(&dest, &[])?.into_keys().map(|k| format!("/{k}")).collect();
+        restored.sort();
+        if restored != want {
+            return report("restoring the full backup with the exclusions", &restored);
+        }
+    }
+    Ok(None)
 }
 
 // ---------------------------------------------------------------------------------------------- C16
@@ -169,6 +247,10 @@ fn restore_sandbox() -> Result<Option<Value>, String> {
     symlink(&sentinel_dir, src.join("to_dir")).map_err(|e| format!("setup failed at line {}: {e:?}", line!()))?;
     symlink("../../sentinel_file", src.join("d/up_up")).map_err(|e| format!("setup failed at line {}: {e:?}", line!()))?;
     symlink("plain", src.join("to_plain")).map_err(|e| format!("setup failed at line {}: {e:?}", line!()))?;
+    // dot-names in the archived tree: a destination that already holds such names must not be written over / through
+    std::fs::write(src.join(".config"), b"settings from the archive").map_err(|e| format!("setup failed at line {}: {e:?}", line!()))?;
+    std::fs::create_dir_all(src.join(".cache")).map_err(|e| format!("setup failed at line {}: {e:?}", line!()))?;
+    std::fs::write(src.join(".cache/state"), b"state from the archive").map_err(|e| format!("setup failed at line {}: {e:?}", line!()))?;
     let is_root = unsafe { libc_geteuid() } == 0;
     if is_root {
         // nobody / nogroup usually 65534; only ids that resolve to names are recorded by conserve, others are harmless
@@ -206,6 +288,48 @@ fn restore_sandbox() -> Result<Option<Value>, String> {
         if r.is_ok() || names != vec!["existing".to_string()] || std::fs::read(dest2.join("existing")).map_err(|e| format!("setup failed at line {}: {e:?}", line!()))? != b"mine" {
             return found("restore_sandbox", json!({}), format!("restore into a non-empty destination returned {:?} and left {names:?}", r.is_ok()), "Err(DestinationNotEmpty), destination untouched",
                 "restore without overwrite did not refuse a non-empty destination");
+        }
+        // a destination that holds only names starting with a dot is not empty either
+        for case in ["dot file", "dot directory", "dot symlink to a file beside the destination", "dot symlink to a directory beside the destination", "dot file and DS_Store", "empty dot directory"] {
+            let box_dir = sandbox.join("dotbox");
+            let _ = std::fs::remove_dir_all(&box_dir);
+            let dest3 = box_dir.join("dest");
+            std::fs::create_dir_all(&dest3).map_err(|e| format!("setup failed at line {}: {e:?}", line!()))?;
+            std::fs::write(box_dir.join("sentinel"), b"beside the destination").map_err(|e| format!("setup failed at line {}: {e:?}", line!()))?;
+            std::fs::create_dir(box_dir.join("sentinel_d")).map_err(|e| format!("setup failed at line {}: {e:?}", line!()))?;
+            std::fs::write(box_dir.join("sentinel_d/state"), b"beside too").map_err(|e| format!("setup failed at line {}: {e:?}", line!()))?;
+            match case {
+                "dot file" => std::fs::write(dest3.join(".config"), b"precious local settings").map_err(|e| format!("setup failed at line {}: {e:?}", line!()))?,
+                "dot directory" => {
+                    std::fs::create_dir(dest3.join(".cache")).map_err(|e| format!("setup failed at line {}: {e:?}", line!()))?;
+                    std::fs::write(dest3.join(".cache/state"), b"precious local state").map_err(|e| format!("setup failed at line {}: {e:?}", line!()))?;
+                }
+                "dot symlink to a file beside the destination" => symlink("../sentinel", dest3.join(".config")).map_err(|e| format!("setup failed at line {}: {e:?}", line!()))?,
+                "dot symlink to a directory beside the destination" => symlink("../sentinel_d", dest3.join(".cache")).map_err(|e| format!("setup failed at line {}: {e:?}", line!()))?,
+                "dot file and DS_Store" => {
+                    std::fs::write(dest3.join(".DS_Store"), b"finder").map_err(|e| format!("setup failed at line {}: {e:?}", line!()))?;
+                    std::fs::write(dest3.join(".plain"), b"mine").map_err(|e| format!("setup failed at line {}: {e:?}", line!()))?;
+                }
+                _ => std::fs::create_dir(dest3.join(".git")).map_err(|e| format!("setup failed at line {}: {e:?}", line!()))?,
+            }
+            for p in [&dest3, &box_dir] {
+                filetime::set_file_mtime(p, filetime::FileTime::from_unix_time(1_000_000_100, 9)).map_err(|e| format!("setup failed at line {}: {e:?}", line!()))?;
+            }
+            let before3 = tree_snapshot(&box_dir, &[])?;
+            let before_sent = (snap(&sentinel_file)?, snap(&sentinel_dir)?);
+            let r = conserve::restore(&archive, &dest3, RestoreOptions::default(), Arc::new(VoidMonitor)).await;
+            let after3 = tree_snapshot(&box_dir, &[])?;
+            let input = json!({"destination_holds_only": case});
+            if after3 != before3 || (snap(&sentinel_file)?, snap(&sentinel_dir)?) != before_sent {
+                let created: Vec<&String> = after3.keys().filter(|k| !before3.contains_key(*k)).collect();
+                let changed: Vec<&String> = after3.iter().filter(|(k, v)| before3.get(*k).is_some_and(|b| b != *v)).map(|(k, _)| k).collect();
+                return found("restore_sandbox", input, format!("restore without overwrite returned {:?}; created {created:?}; changed {changed:?} (paths relative to the directory that holds dest/ and the sentinels)", r.map_err(|e| e.to_string())),
+                    "Err(DestinationNotEmpty); the destination and everything beside it untouched", "restore without overwrite wrote into (or through) a destination that was not empty: it holds names starting with a dot");
+            }
+            if !matches!(r, Err(conserve::Error::DestinationNotEmpty)) {
+                return found("restore_sandbox", input, format!("restore without overwrite returned {:?}", r.map_err(|e| e.to_string())), "Err(DestinationNotEmpty)",
+                    "restore without overwrite did not refuse a destination that holds entries whose names start with a dot");
+            }
         }
         // the stitched listing of an interrupted backup: a symlink from the newer band followed by the former contents
         // of the directory it replaced, from the older band
